@@ -100,6 +100,20 @@ def native_check(kind, n, env=None, seed=0):
             v1 = ts.KL(st, t2, space, bases=bases)
             if abs(v1) > 1e-8:
                 fails.append(("KL(%s) against own state, the target tensor sitting at the address of a freed earlier target, != 0" % label, float(v1)))
+    # the deprecated keywords of fidelity / KL name the same argument at every call, not just the first
+    import warnings
+    alias = "target_rho" if mixed else "target_psi"
+    with warnings.catch_warnings():
+        warnings.simplefilter("ignore")
+        for rep in range(3):
+            try:
+                fa = ts.fidelity(st, space=space, **{alias: tt})
+                ka = ts.KL(st, space=space, **{alias: tt})
+            except Exception as e:                  # noqa: BLE001
+                fails.append(("call %d of fidelity / KL through the deprecated keyword %s raised" % (rep + 1, alias), repr(e)))
+                break
+            if abs(fa - ts.fidelity(st, tt, space)) > 1e-12 or abs(ka - ts.KL(st, tt, space)) > 1e-12:
+                fails.append(("fidelity / KL through the deprecated keyword %s differ from the positional call (call %d)" % (alias, rep + 1), None))
     # NLL
     M = 5
     samples = torch.tensor(rng.integers(0, 2, size=(M, n)), dtype=torch.double)
